@@ -70,3 +70,31 @@ def obligations(fnode):
     if nbuild == 0:
         out.append(("the result list is built in this function", False, fnode.lineno))
     return out
+
+
+# ------------------------------------------------------------ frame condition on sympy's global printer settings (C12: printing is pure)
+SAFE_INIT_PRINTING_KW = {"use_unicode", "use_latex", "wrap_line", "num_columns", "pretty_print"}
+
+
+def printer_state_obligations(fnode):
+    """ESRPrinter takes defaults from sympy's process-wide printer settings (Printer._global_settings).  Obligations per function: a call of
+    sympy.init_printing passes only keywords that do not reach those settings (`order=` does: init_printing forwards it to
+    Printer.set_global_settings), and nothing writes the global settings directly."""
+    out = []
+    for n in ast.walk(fnode):
+        if isinstance(n, ast.Call):
+            name = n.func.attr if isinstance(n.func, ast.Attribute) else getattr(n.func, "id", None)
+            if name == "init_printing":
+                kws = {k.arg for k in n.keywords if k.arg}
+                star = any(k.arg is None for k in n.keywords)
+                bad = sorted(kws - SAFE_INIT_PRINTING_KW)
+                out.append(("line %d: init_printing leaves the global printer settings alone (keywords %s)" % (n.lineno, sorted(kws)), not bad and not star and not n.args, n.lineno))
+            if name == "set_global_settings":
+                out.append(("line %d: no call of Printer.set_global_settings" % n.lineno, False, n.lineno))
+        if isinstance(n, (ast.Assign, ast.AugAssign)):
+            tg = n.targets if isinstance(n, ast.Assign) else [n.target]
+            for t in tg:
+                for a in ast.walk(t):
+                    if isinstance(a, ast.Attribute) and a.attr in ("_global_settings", "_default_settings"):
+                        out.append(("line %d: no write to the printers' %s" % (n.lineno, a.attr), False, n.lineno))
+    return out
